@@ -155,6 +155,15 @@ impl FileSystem {
         Ok(())
     }
 
+    pub(crate) fn clear_internal_info(&self, bucket: &str, key: &str) -> Result<()> {
+        let path = self.get_internal_info_path(bucket, key)?;
+        match std::fs::remove_file(path) {
+            Ok(()) => Ok(()),
+            Err(ref e) if e.kind() == std::io::ErrorKind::NotFound => Ok(()),
+            Err(e) => Err(e.into()),
+        }
+    }
+
     pub(crate) async fn load_internal_info(&self, bucket: &str, key: &str) -> Result<Option<InternalInfo>> {
         let path = self.get_internal_info_path(bucket, key)?;
         if path.exists().not() {
